@@ -154,7 +154,7 @@ theorem processRetracted_ids (l : List TaskId) (s s' : State) (acc acc' : List (
   · cases h; rfl
   · split at h
     · cases h
-    · exact withWorker_tasks h
+    · have := withWorker_tasks h; exact this
 
 @[grind →] theorem removeConsumer_ids {ts ts' : List Task} {d c : TaskId}
     (h : removeConsumer ts d c = .ok ts') : taskIds ts' = taskIds ts := by
@@ -224,23 +224,23 @@ theorem addNewTasks_nodup (nts : List NewTask) (s s' : State) (r r' : List TaskI
         | none => rfl
         | some x => simp [hx] at hf
       have hnm := not_mem_of_findTask_none hnone
-      have hnd : (taskIds (ts ++ [({ id := nt.id, state := .waiting n, deps := kept, rq := nt.rq, prio := nt.prio,
-          crashLimit := nt.crashLimit, inst := nt.inst, crashes := nt.crashes } : Task)])).Nodup := by
+      have hnd : ∀ t : Task, t.id = nt.id → (taskIds (ts ++ [t])).Nodup := by
+        intro t ht
         simp only [taskIds, List.map_append, List.map_cons, List.map_nil]
         rw [List.nodup_append]
         refine ⟨by rw [← hreg] at hn; exact hn, by simp, ?_⟩
         intro a ha b hb
         simp only [List.mem_singleton] at hb
         subst hb
-        intro e; subst e; exact hnm ha
+        intro e; subst e; rw [ht] at ha; exact hnm ha
       split at h
       · split at h
         · cases h
         · rename_i s2 r2 ha
           have h2 := addReady_tasks ha
           refine ih _ _ ?_ h
-          simp only [h2]; exact hnd
-      · exact ih _ _ hnd h
+          simp only [h2]; exact hnd _ rfl
+      · exact ih _ _ (hnd _ rfl) h
 
 theorem newTasks_nodup {s s' : State} {nts : List NewTask} {o : Out}
     (hn : (taskIds s.tasks).Nodup) (h : s.newTasks nts = .ok (s', o)) : (taskIds s'.tasks).Nodup := by
@@ -294,38 +294,6 @@ theorem removeWaitingAll_sub (ids : List TaskId) (s s' : State)
     (h : s.removeWaitingAll ids = .ok s') : IdsSub s s' := by
   fun_induction State.removeWaitingAll s ids <;> grind [removeTask_sub, IdsSub.refl, IdsSub.trans]
 
-theorem taskFailed_pre_tasks {s s1 : State} {worker : Option Nat} {id : TaskId} {task : Task}
-    (h : (match worker with
-      | some w =>
-        if s.isMultiNode task.rq then
-          match task.state with
-          | .runningMN ws =>
-            match ws with
-            | root :: _ => if root ≠ w then .error (.panic "task_failed.assert_root") else resetMnAll s ws
-            | [] => .error (.panic "task_failed.ws0")
-          | _ => .error (.panic "task_failed.mn_placement_unwrap")
-        else
-          match task.state with
-          | .assigned w' rv | .running w' rv =>
-            if w ≠ w' then .error (.panic "task_failed.assert_worker") else
-            match s.rq task.rq rv with
-            | .error e => .error e
-            | .ok r => s.withWorker w (·.removeSn id r)
-          | .prefilled w' =>
-            if w ≠ w' then .error (.panic "task_failed.assert_worker") else
-            match s.removePrefilled task.rq id with
-            | .error e => .error e
-            | .ok s1 => s1.withWorker w (·.removePrefill id)
-          | .retracting w' =>
-            if w ≠ w' then .error (.panic "task_failed.assert_worker") else
-            s.tryRemoveRedirection id task.rq
-          | _ => .ok s
-      | none =>
-        match task.state with
-        | .waiting _ => .ok s
-        | _ => .error (.panic "task_failed.assert_waiting") : M State) = .ok s1) : s1.tasks = s.tasks := by
-  grind [resetMnAll_tasks, withWorker_tasks, removePrefilled_tasks, tryRemoveRedirection_tasks]
-
 @[grind →] theorem taskFailed_sub {s s' : State} {worker : Option Nat} {id : TaskId} {ret : List TaskId} {o : Out}
     (h : s.taskFailed worker id ret = .ok (s', o)) : IdsSub s s' := by
   simp only [State.taskFailed] at h
@@ -335,7 +303,10 @@ theorem taskFailed_pre_tasks {s s1 : State} {worker : Option Nat} {id : TaskId} 
     split at h
     · cases h
     · rename_i s1 hpre
-      have e1 := taskFailed_pre_tasks hpre
+      have e1 : s1.tasks = s.tasks := by
+        clear h
+        repeat' (split at hpre)
+        all_goals grind
       split at h
       · cases h
       · split at h
@@ -348,42 +319,20 @@ theorem taskFailed_pre_tasks {s s1 : State} {worker : Option Nat} {id : TaskId} 
             have a2 := removeWaitingAll_sub _ _ _ h2
             have a3 := removeTask_sub h3
             have a := (a1.trans a2).trans a3
-            split at h
-            · cases h
-            · split at h
-              · cases h; exact a
-              · split at h
-                · cases h
-                · rename_i s4 out2 h4
-                  cases h
-                  exact a.trans (cancelTasks_sub h4)
+            clear hpre
+            repeat' (split at h)
+            all_goals grind
 
 @[grind →] theorem taskRunning_stable {s s' : State} {w : Nat} {id : TaskId} {rv : Nat} {o : Out}
     (h : s.taskRunning w id rv = .ok (s', o)) : IdsStable s s' := by
   unfold IdsStable
   simp only [State.taskRunning] at h
-  grind [withWorker_tasks, setTask_ids, queueRemove_tasks, tryRemoveRedirection_tasks, ask_tasks]
+  repeat' (split at h)
+  all_goals grind [setTask_ids, ask_tasks]
 
 theorem wakeConsumers_ids (cs : List TaskId) (s s' : State) (r r' : List TaskId)
     (h : s.wakeConsumers cs r = .ok (s', r')) : taskIds s'.tasks = taskIds s.tasks := by
   fun_induction State.wakeConsumers s cs r <;> grind [setTask_ids, addReady_tasks]
-
-theorem taskFinished_pre_tasks {s s1 : State} {w : Nat} {id : TaskId} {task : Task}
-    (h : (match task.state with
-      | .assigned w' rv | .running w' rv =>
-        if w' ≠ w then .error (.panic "task_finished.assert_worker") else
-        match s.rq task.rq rv with
-        | .error e => .error e
-        | .ok r => s.withWorker w (·.removeSn id r)
-      | .runningMN ws =>
-        match ws with
-        | root :: _ => if root ≠ w then .error (.panic "task_finished.assert_root") else resetMnChecked s id ws
-        | [] => .error (.panic "task_finished.ws0")
-      | .retracting w' =>
-        if w' ≠ w then .error (.panic "task_finished.assert_worker") else s.tryRemoveRedirection id task.rq
-      | .prefilled .. | .waiting .. | .finished => .error (.panic "task_finished.unreachable") : M State) = .ok s1) :
-    s1.tasks = s.tasks := by
-  grind [resetMnChecked_tasks, withWorker_tasks, tryRemoveRedirection_tasks]
 
 @[grind →] theorem taskFinished_sub {s s' : State} {w : Nat} {id : TaskId} {o : Out} {b : Bool}
     (h : s.taskFinished w id = .ok (s', o, b)) : IdsSub s s' := by
@@ -394,7 +343,10 @@ theorem taskFinished_pre_tasks {s s1 : State} {w : Nat} {id : TaskId} {task : Ta
     split at h
     · cases h
     · rename_i s1 hpre
-      have e1 := taskFinished_pre_tasks hpre
+      have e1 : s1.tasks = s.tasks := by
+        clear h
+        repeat' (split at hpre)
+        all_goals grind
       split at h
       · cases h
       · rename_i s3 retracted h3
@@ -419,7 +371,8 @@ theorem taskFinished_pre_tasks {s s1 : State} {w : Nat} {id : TaskId} {task : Ta
   simp only [State.taskReject] at h
   have hr := @retract_stable
   unfold IdsStable at hr
-  grind [withWorker_tasks, setTask_ids, addReady_tasks, removePrefilled_tasks, setWorker_tasks]
+  repeat' (split at h)
+  all_goals grind [setTask_ids, setWorker_tasks]
 
 @[grind →] theorem requestEnabled_tasks {s s' : State} {w rq rv : Nat}
     (h : s.requestEnabled w rq rv = .ok s') : s'.tasks = s.tasks := withWorker_tasks h
@@ -472,5 +425,152 @@ theorem crashLoop_sub (ids : List TaskId) (s s' : State) (f : Bool) (rets : List
     (h : s.crashLoop f ids rets o = .ok (s', o')) : IdsSub s s' := by
   fun_induction State.crashLoop s f ids rets o <;>
     grind [setTask_stable, taskFailed_sub, IdsSub.refl, IdsSub.trans, IdsStable.sub]
+
+theorem removeWorker_sub {s s' : State} {w : Nat} {reason : String} {f : Bool} {order : List TaskId}
+    {rets : List (List TaskId)} {o : Out}
+    (h : s.removeWorker w reason f order rets = .ok (s', o)) : IdsSub s s' := by
+  simp only [State.removeWorker] at h
+  split at h
+  · cases h
+  · rename_i wk hw
+    split at h
+    · cases h
+    · rename_i s1 running retracted hp1
+      have e1 : taskIds s1.tasks = taskIds s.tasks := by
+        clear h
+        have hlp := lostPrefilled_ids
+        have hla := lostAssigned_ids
+        have hrm := resetMnAll_tasks
+        repeat' (split at hp1)
+        all_goals grind [setTask_ids]
+      split at h
+      · cases h
+      · rename_i s2 out1 h2
+        have e2 := lostRetracting_ids _ _ _ _ _ _ h2
+        split at h
+        · cases h
+        · rename_i s3 out2 h3
+          have e3 : IdsStable s2 s3 := retract_stable h3
+          split at h
+          · cases h
+          · rename_i s4 out h4
+            cases h
+            have e4 := crashLoop_sub _ _ _ _ _ _ _ h4
+            unfold IdsSub IdsStable at *
+            show (taskIds s4.tasks).Sublist (taskIds s.tasks)
+            rw [← e1, ← e2, ← e3]; exact e4
+
+/-! ### Sched.lean -/
+
+theorem placeSn_stable {s s' : State} {m m' : List WUpdate} {v : Nat} {r : Rq} {id : TaskId} {w : Nat}
+    (h : s.placeSn m v r id w = .ok (s', m')) : IdsStable s s' := by
+  unfold IdsStable
+  simp only [State.placeSn] at h
+  repeat' (split at h)
+  all_goals grind [setTask_ids]
+
+theorem placeAll_ids (l : List (TaskId × Nat)) (s s' : State) (m m' : List WUpdate) (v : Nat) (r : Rq)
+    (h : s.placeAll m v r l = .ok (s', m')) : taskIds s'.tasks = taskIds s.tasks := by
+  have hp := @placeSn_stable
+  unfold IdsStable at hp
+  fun_induction State.placeAll s m v r l <;> grind
+
+theorem mapSn_ids (es : List SnEntry) (s s' : State) (m m' : List WUpdate)
+    (h : s.mapSn m es = .ok (s', m')) : taskIds s'.tasks = taskIds s.tasks := by
+  have hp := placeAll_ids
+  fun_induction State.mapSn s m es <;> grind
+
+theorem setMnAll_tasks (ws : List Nat) (s s' : State) (id : TaskId) (first : Bool)
+    (h : setMnAll s id ws first = .ok s') : s'.tasks = s.tasks := by
+  fun_induction setMnAll s id ws first <;> grind
+
+theorem mapMnSets_ids (sets : List (List Nat)) (s s' : State) (rq : Nat) (acc acc' : List TaskId)
+    (h : s.mapMnSets rq sets acc = .ok (s', acc')) : taskIds s'.tasks = taskIds s.tasks := by
+  have hp := setMnAll_tasks
+  fun_induction State.mapMnSets s rq sets acc <;> grind [setTask_ids]
+
+theorem mapMn_ids (es : List MnEntry) (s s' : State) (acc acc' : List TaskId)
+    (h : s.mapMn es acc = .ok (s', acc')) : taskIds s'.tasks = taskIds s.tasks := by
+  have hp := mapMnSets_ids
+  fun_induction State.mapMn s es acc <;> grind
+
+theorem prefillBack_ids (rq : Nat) (l : List TaskId) (s s' : State) (keep keep' : List TaskId)
+    (h : State.prefillWorker.back rq s l keep = .ok (s', keep')) : taskIds s'.tasks = taskIds s.tasks := by
+  fun_induction State.prefillWorker.back rq s l keep <;> grind
+
+theorem prefillMark_ids (w : Nat) (l : List TaskId) (s s' : State)
+    (h : State.prefillWorker.mark w s l = .ok s') : taskIds s'.tasks = taskIds s.tasks := by
+  fun_induction State.prefillWorker.mark w s l <;> grind [setTask_ids]
+
+theorem prefillWorker_stable {s s' : State} {m m' : List WUpdate} {rq size w : Nat}
+    (h : s.prefillWorker m rq size w = .ok (s', m')) : IdsStable s s' := by
+  unfold IdsStable
+  simp only [State.prefillWorker] at h
+  have h1 := prefillBack_ids
+  have h2 := prefillMark_ids
+  repeat' (split at h)
+  all_goals grind
+
+theorem prefillWorkers_ids (ws : List Nat) (s s' : State) (m m' : List WUpdate) (rq size : Nat)
+    (h : s.prefillWorkers m rq size ws = .ok (s', m')) : taskIds s'.tasks = taskIds s.tasks := by
+  have hp := @prefillWorker_stable
+  unfold IdsStable at hp
+  fun_induction State.prefillWorkers s m rq size ws <;> grind
+
+theorem proactive_ids (n : Nat) (s s' : State) (m m' : List WUpdate) (orders : List (Nat × List Nat)) (top : Int)
+    (rq : Nat) (h : s.proactive m orders top n rq = .ok (s', m')) : taskIds s'.tasks = taskIds s.tasks := by
+  have hp := prefillWorkers_ids
+  fun_induction State.proactive s m orders top n rq <;> grind
+
+theorem schedule_stable {s s' : State} {sol : Solution} {o : Out}
+    (h : s.schedule sol = .ok (s', o)) : IdsStable s s' := by
+  unfold IdsStable
+  simp only [State.schedule] at h
+  have h1 := mapSn_ids
+  have h2 := mapMn_ids
+  have h3 := proactive_ids
+  repeat' (split at h)
+  all_goals grind
+
+/-! ### Run.lean -/
+
+/-- **task ids stay unique** under every operation -/
+theorem step_nodup {s s' : State} {op : Op} {out : Out} (hn : (taskIds s.tasks).Nodup)
+    (h : step s op = .ok (s', out)) : (taskIds s'.tasks).Nodup := by
+  cases op with
+  | newWorker w => simp only [step, State.newWorker] at h; cases h; exact hn
+  | removeWorker w reason f order rets => exact (removeWorker_sub h).nodup hn
+  | newRq rqv => simp only [step] at h; cases h; exact hn
+  | newTasks nts => exact newTasks_nodup hn h
+  | cancel ids => exact (cancelTasks_sub h).nodup hn
+  | update w us rets => exact (taskUpdate_sub h).nodup hn
+  | retracted w ids => exact (retractResponse_stable h).sub.nodup hn
+  | schedule sol => exact (schedule_stable h).sub.nodup hn
+
+/-- a property preserved by every step holds after every run -/
+theorem run_induction {P : State → Prop} (hstep : ∀ s s' op out, P s → step s op = .ok (s', out) → P s')
+    (ops : List Op) : ∀ (s s' : State) (out : Out), P s → run s ops = .ok (s', out) → P s' := by
+  induction ops with
+  | nil => intro s s' out hp h; simp only [run] at h; cases h; exact hp
+  | cons op rest ih =>
+    intro s s' out hp h
+    simp only [run] at h
+    split at h
+    · cases h
+    · rename_i s1 o1 h1
+      split at h
+      · cases h
+      · rename_i s2 o2 h2
+        cases h
+        exact ih _ _ _ (hstep _ _ _ _ hp h1) h2
+
+theorem run_nodup_from {s s' : State} {ops : List Op} {out : Out} (hn : (taskIds s.tasks).Nodup)
+    (h : run s ops = .ok (s', out)) : (taskIds s'.tasks).Nodup :=
+  run_induction (P := fun s => (taskIds s.tasks).Nodup) (fun _ _ _ _ hp hs => step_nodup hp hs) ops _ _ _ hn h
+
+/-- **`TasksNodup`**: in every state reachable from the empty core no two tasks have the same id -/
+theorem run_nodup {s' : State} {ops : List Op} {out : Out}
+    (h : run {} ops = .ok (s', out)) : (taskIds s'.tasks).Nodup :=
+  run_nodup_from (s := {}) List.nodup_nil h
 
 end HqModel.Core
